@@ -286,13 +286,18 @@ def family_bodies(prog, root, depth=2):
                 out.append((cb, a, chain + [(body, c)]))
                 scan(cb, lambda _c, a=a: a, chain + [(body, c)], d - 1)
             for arg in c.args:
+                k = None
                 if arg["k"] in ("copy", "move") and not arg["place"]["p"]:
                     clos = body.locals[arg["place"]["l"]].get("closure")
                     k = prog.body(norm(clos)) if clos else None
-                    if k is not None and k.npath not in seen:
-                        seen.add(k.npath)
-                        out.append((k, a, chain + [(body, c)]))
-                        scan(k, lambda _c, a=a: a, chain + [(body, c)], d - 1)
+                elif arg["k"] == "const" and arg.get("fn"):
+                    k = prog.body(norm(arg["fn"]))                 # a function item handed over: `iter.for_each(step)`
+                    if k is not None and not k.crate.startswith("pasfmt"):
+                        k = None
+                if k is not None and k.npath not in seen:
+                    seen.add(k.npath)
+                    out.append((k, a, chain + [(body, c)]))
+                    scan(k, lambda _c, a=a: a, chain + [(body, c)], d - 1)
     scan(root, lambda c: c.bb, [], depth)
     return out
 
